@@ -114,4 +114,109 @@ theorem last_obs (env : Env) (h : List Op) (op : Op) :
   simp [runHist]
 
 
+theorem lookup_filter_ne (fs : PFS) (n x : Str) :
+    (fs.filter (fun y => y.1 ≠ n)).lookup x = if x = n then none else fs.lookup x := by
+  induction fs with
+  | nil => simp
+  | cons y ys ih =>
+    obtain ⟨yk, yv⟩ := y
+    rw [List.filter_cons]
+    by_cases hy : yk = n
+    · subst hy
+      simp only [ne_eq, not_true_eq_false, decide_false, Bool.false_eq_true, if_false, ih, List.lookup_cons]
+      by_cases hx : x = yk
+      · simp [hx]
+      · have : (x == yk) = false := by simpa using hx
+        simp [hx, this]
+    · simp only [ne_eq, hy, not_false_eq_true, decide_true, if_true, List.lookup_cons, ih]
+      by_cases hxy : x = yk
+      · subst hxy
+        simp [hy]
+      · have : (x == yk) = false := by simpa using hxy
+        simp [this]
+
+theorem pfsPut_lookup (fs : PFS) (n : Str) (e : FEnt) (x : Str) :
+    (pfsPut fs n e).lookup x = if x = n then some e else fs.lookup x := by
+  unfold pfsPut
+  rw [List.lookup_cons]
+  by_cases hx : x = n
+  · simp [hx]
+  · have : (x == n) = false := by simpa using hx
+    simp only [this, lookup_filter_ne, hx, if_false]
+
+theorem foldl_put_lookup (w : Str) (c : Str → Nat) (L : List Str) (fs0 : PFS) (x : Str) :
+    ((L.map fun f => (f, c f)).foldl (fun acc fc => pfsPut acc fc.1 ⟨w, fc.2⟩) fs0).lookup x
+      = if x ∈ L then some ⟨w, c x⟩ else fs0.lookup x := by
+  induction L generalizing fs0 with
+  | nil => simp
+  | cons f fs ih =>
+    simp only [List.map_cons, List.foldl_cons, ih, pfsPut_lookup, List.mem_cons]
+    by_cases h1 : x ∈ fs
+    · simp [h1]
+    · by_cases h2 : x = f
+      · simp [h2]
+      · simp [h1, h2]
+
+
+/-- the key of the header member in `files_types` -/
+def headerKey : Str := [104, 101, 97, 100, 101, 114]
+
+theorem openers_keep_state (env : Env) (fs : PFS) (h : List Op) (hall : ∀ o ∈ h, o.isOpener = true) :
+    (runHist env fs h).1 = fs := by
+  induction h with
+  | nil => rfl
+  | cons op rest ih =>
+    have h1 := hall op List.mem_cons_self
+    cases op with
+    | opener b n =>
+      simp only [runHist, step]
+      exact ih (fun o ho => hall o (List.mem_cons_of_mem _ ho))
+    | save c n => simp at h1
+    | load n => simp at h1
+    | rename a b => simp at h1
+
+/-! ### write programs on the two kinds of holder -/
+theorem zeros_add (a b : Nat) : zeros a ++ zeros b = zeros (a + b) := by
+  simp [zeros, List.replicate_append_replicate]
+
+theorem holders_agree_from (p : List WOp) : ∀ (s : RA) (out : Bytes), s.buf.length ≤ s.pos →
+    out = s.buf ++ zeros (s.pos - s.buf.length) → mono s.pos p = true →
+    seqFrom out p = some ((raFinal s p).buf ++ zeros ((raFinal s p).pos - (raFinal s p).buf.length)) ∧
+      (raFinal s p).buf.length ≤ (raFinal s p).pos := by
+  induction p with
+  | nil => intro s out hle hout _; simp [seqFrom, raFinal, hout, hle]
+  | cons op r ih =>
+    intro s out hle hout hm
+    have hlen : out.length = s.pos := by simp [hout, zeros]; omega
+    cases op with
+    | write b =>
+      simp only [mono] at hm
+      by_cases hb : b = []
+      · subst hb
+        have : raStep s (.write []) = s := by simp [raStep, raWrite]
+        simp only [seqFrom, seqStep, List.append_nil, raFinal, List.foldl_cons, this]
+        exact ih s out hle hout (by simpa using hm)
+      · have hbe : b.isEmpty = false := by simpa using hb
+        have hs' : raStep s (.write b) = ⟨out ++ b, s.pos + b.length⟩ := by
+          simp only [raStep, raWrite, hbe, Bool.false_eq_true, if_false]
+          have h1 : s.buf.take s.pos = s.buf := List.take_of_length_le hle
+          have h2 : s.buf.drop (s.pos + b.length) = [] := List.drop_of_length_le (by omega)
+          rw [h1, h2, List.append_nil, hout]
+        simp only [seqFrom, seqStep, raFinal, List.foldl_cons, hs']
+        exact ih ⟨out ++ b, s.pos + b.length⟩ (out ++ b) (by simp [hlen]) (by simp [hlen, zeros]) hm
+    | seekTo o =>
+      simp only [mono, Bool.and_eq_true, decide_eq_true_eq] at hm
+      have hs' : raStep s (.seekTo o) = ⟨s.buf, o⟩ := rfl
+      simp only [seqFrom, seqStep, raFinal, List.foldl_cons, hs', hlen, if_pos hm.1]
+      refine ih ⟨s.buf, o⟩ _ (by simp; omega) ?_ hm.2
+      simp only [hout, List.append_assoc, zeros_add]
+      congr 2; omega
+
+
+theorem holders_agree_lemma (p : List WOp) (hm : mono 0 p = true) (hc : complete p = true) :
+    seqRun p = some (raRun p) := by
+  obtain ⟨h1, _⟩ := holders_agree_from p ⟨[], 0⟩ [] (by simp) (by simp [zeros]) hm
+  have hc' : (raFinal ⟨[], 0⟩ p).pos = (raFinal ⟨[], 0⟩ p).buf.length := by simpa [complete] using hc
+  simp only [seqRun, h1, hc', Nat.sub_self, zeros, List.replicate_zero, List.append_nil, raRun]
+
 end Nb.C12
